@@ -159,11 +159,11 @@ var props = map[string]*propSpec{
 	},
 	"C14": {
 		Level: "exploration",
-		Rule: "the histories of the families of C01-C12 (message flow, metadata, teardown at every phase, cancellation, bystanders and disturbers, graceful shutdown, flow control, id races and raw id deviations, raw-peer fuzzing, window overruns, call shapes, negotiation matrix and settings variants, registry churn, concurrent control operations); every run ends with a drain to final quiescence (table sizes probed through the verif accessors, registry compared with the open tunnels) and a full shutdown (every tunnel ended, every context cancelled, all timers fired) after which any goroutine started by the library that is still alive is a leak; " +
+		Rule: "the histories of the families of C01-C12 (message flow, metadata, teardown at every phase, cancellation, bystanders and disturbers, graceful shutdown, flow control, id races and raw id deviations, raw-peer fuzzing, window overruns, call shapes, negotiation matrix and settings variants, registry churn, concurrent control operations); every run ends with a drain to final quiescence (table sizes probed through the verif accessors, registry compared with the open tunnels) and a full shutdown (every tunnel ended, every context cancelled, all timers fired) after which any goroutine started by the library that is still alive is a leak; family soak: 3-6 (thorough 4-15) phases of 2-6 RPCs with assorted endings on one tunnel, quiescence between the phases, where the tables must be empty and the library's live goroutines (by spawn site) the same after every phase; " +
 			"non-trivial = at least 3 goroutines were alive at once; distinct = distinct schedule digests",
 		Families: []famPlan{{Family: "teardown", Weight: 3}, {Family: "msgflow", Weight: 2}, {Family: "meta", Weight: 1}, {Family: "cancel", Weight: 2}, {Family: "bystander", Weight: 1},
 			{Family: "graceful", Weight: 1}, {Family: "flow", Weight: 1, Batch: 10}, {Family: "idrace", Weight: 1}, {Family: "idraw", Weight: 1}, {Family: "rawfuzz", Weight: 2}, {Family: "overrun", Weight: 1},
-			{Family: "shapes", Weight: 1}, {Family: "matrix", Weight: 1}, {Family: "settings", Weight: 1}, {Family: "registry", Weight: 1, Batch: 20}, {Family: "concurrent", Weight: 1}},
+			{Family: "shapes", Weight: 1}, {Family: "matrix", Weight: 1}, {Family: "settings", Weight: 1}, {Family: "registry", Weight: 1, Batch: 20}, {Family: "concurrent", Weight: 1}, {Family: "soak", Weight: 3, Batch: 10}},
 		QuickBudget:    55 * time.Second,
 		ThoroughBudget: 20 * time.Minute,
 	},
